@@ -110,6 +110,9 @@ impl Drop for Fin {
     }
 }
 
+/// sockets kept open until the end of the run (a close would end the successor's read as well)
+static KEEP: std::sync::Mutex<Vec<Box<dyn std::any::Any + Send>>> = std::sync::Mutex::new(Vec::new());
+
 #[derive(Debug, Clone, Copy, PartialEq)]
 enum Ending {
     Normal,
@@ -118,6 +121,12 @@ enum Ending {
     TimedOutPark,
     TimeoutCancelRace,
     TimedOutSem,
+    /// blocked in Semphore::wait / Mutex::lock; cancel() and the awaited event arrive back to back
+    CancelPostRace,
+    CancelUnlockRace,
+    /// a select! whose two arms become ready back to back: the loser is cancelled while it
+    /// finishes (its coroutine, not the predecessor's, is what goes back to the pool)
+    SelectRace,
 }
 
 #[derive(Debug, Clone, Copy, PartialEq)]
@@ -129,6 +138,8 @@ enum First {
     Sleep,
     LocalRead,
     Yield,
+    /// a socket read that has to wait for its data (io calls look at the resume parameter first)
+    IoRead,
 }
 
 #[derive(Debug)]
@@ -146,8 +157,8 @@ fn gen(seed: u64) -> Params {
     let rounds = (0..n)
         .map(|_| {
             (
-                *r.pick(&[Ending::Normal, Ending::Panic, Ending::CancelWhileParked, Ending::TimedOutPark, Ending::TimeoutCancelRace, Ending::TimedOutSem]),
-                *r.pick(&[First::BlockerPark, First::SemWait, First::Recv, First::Lock, First::Sleep, First::LocalRead, First::Yield]),
+                *r.pick(&[Ending::Normal, Ending::Panic, Ending::CancelWhileParked, Ending::TimedOutPark, Ending::TimeoutCancelRace, Ending::TimedOutSem, Ending::CancelPostRace, Ending::CancelUnlockRace, Ending::SelectRace]),
+                *r.pick(&[First::BlockerPark, First::SemWait, First::Recv, First::Lock, First::Sleep, First::LocalRead, First::Yield, First::IoRead, First::IoRead]),
                 r.chance(2, 3),
             )
         })
@@ -165,6 +176,8 @@ fn gen(seed: u64) -> Params {
 pub fn run(seed: u64, mut ov: impl FnMut(&mut engine::Cfg)) -> ! {
     let p = gen(seed);
     let mut cfg = swarm_cfg(seed, &swarm());
+    // real sockets are used by some successors: the engine then looks at the epoll fds
+    cfg.io_always = p.rounds.iter().any(|r| r.1 == First::IoRead);
     ov(&mut cfg);
     engine::init(cfg);
     engine::set_extra("params", engine::json_str(&format!("{:?}", p)));
@@ -201,6 +214,13 @@ pub fn run(seed: u64, mut ov: impl FnMut(&mut engine::Cfg)) -> ! {
         // ---- predecessor
         let started = Arc::new(AtomicBool::new(false));
         let st2 = started.clone();
+        let psem = Arc::new(Semphore::new(0));
+        let plock = Arc::new(Mutex::new(0u32));
+        let (psem2, plock2) = (psem.clone(), plock.clone());
+        let (stx1, srx1) = mpsc::channel::<u32>();
+        let (stx2, srx2) = mpsc::channel::<u32>();
+        // the lock is held by us while the predecessor asks for it
+        let mut held = if ending == Ending::CancelUnlockRace { Some(plock.lock().unwrap()) } else { None };
         let ph = unsafe {
             coroutine::spawn(move || {
                 let _fin = Fin(pred_id);
@@ -234,6 +254,20 @@ pub fn run(seed: u64, mut ov: impl FnMut(&mut engine::Cfg)) -> ! {
                             violation("predecessor wait_timeout on an empty semaphore succeeded");
                         }
                     }
+                    Ending::CancelPostRace => psem2.wait(),
+                    Ending::SelectRace => {
+                        let t = may::select!(
+                            _ = srx1.recv() => {},
+                            _ = srx2.recv() => {}
+                        );
+                        if t > 1 {
+                            violation(&format!("select! returned token {}", t));
+                        }
+                    }
+                    Ending::CancelUnlockRace => {
+                        let mut g = plock2.lock().unwrap_or_else(|e| e.into_inner());
+                        *g += 1;
+                    }
                 }
                 if used_locals {
                     touch(pred_id, 0, &mut first);
@@ -250,6 +284,32 @@ pub fn run(seed: u64, mut ov: impl FnMut(&mut engine::Cfg)) -> ! {
                 rt::dally(3);
                 unsafe { ph.coroutine().cancel() };
             }
+            Ending::CancelPostRace | Ending::CancelUnlockRace => {
+                loop {
+                    if rt::wait_flag(&started, 100) {
+                        break;
+                    }
+                }
+                // let it block, then cancel and release back to back: the event may find the
+                // coroutine already taken by the cancel but not yet resumed
+                rt::dally(2 + ri as u32 * 3);
+                unsafe { ph.coroutine().cancel() };
+                if ending == Ending::CancelPostRace {
+                    psem.post();
+                } else {
+                    held = None;
+                }
+            }
+            Ending::SelectRace => {
+                loop {
+                    if rt::wait_flag(&started, 100) {
+                        break;
+                    }
+                }
+                rt::dally(4 + ri as u32 * 5);
+                let _ = stx1.send(1);
+                let _ = stx2.send(2);
+            }
             Ending::TimeoutCancelRace => {
                 loop {
                     if rt::wait_flag(&started, 100) {
@@ -265,12 +325,16 @@ pub fn run(seed: u64, mut ov: impl FnMut(&mut engine::Cfg)) -> ! {
         let o = OPS.begin(format!("join of predecessor {} ({:?})", pred_id, ending));
         let pr = ph.join();
         o.done();
+        drop(held.take());
         match (ending, &pr) {
             (Ending::Panic, Err(e)) if e.downcast_ref::<Scripted>().map(|s| s.0) == Some(pred_id) => {}
             (Ending::CancelWhileParked, Err(e)) | (Ending::TimeoutCancelRace, Err(e))
                 if matches!(e.downcast_ref::<generator::Error>(), Some(generator::Error::Cancel)) => {}
             (Ending::TimeoutCancelRace, Ok(())) => {}
-            (Ending::Normal, Ok(())) | (Ending::TimedOutPark, Ok(())) | (Ending::TimedOutSem, Ok(())) => {}
+            (Ending::CancelPostRace, Err(e)) | (Ending::CancelUnlockRace, Err(e))
+                if matches!(e.downcast_ref::<generator::Error>(), Some(generator::Error::Cancel)) => {}
+            (Ending::CancelPostRace, Ok(())) | (Ending::CancelUnlockRace, Ok(())) => {}
+            (Ending::Normal, Ok(())) | (Ending::TimedOutPark, Ok(())) | (Ending::TimedOutSem, Ok(())) | (Ending::SelectRace, Ok(())) => {}
             _ => violation(&format!("predecessor {} ({:?}) ended unexpectedly: ok={}", pred_id, ending, pr.is_ok())),
         }
         // ---- successor: takes the pooled stack the predecessor just gave back
@@ -278,6 +342,11 @@ pub fn run(seed: u64, mut ov: impl FnMut(&mut engine::Cfg)) -> ! {
         let sem = Arc::new(Semphore::new(0));
         let (tx, rx) = mpsc::channel::<u32>();
         let ready = Arc::new(AtomicBool::new(false));
+        let io_pair = if first_action == First::IoRead { Some(may::os::unix::net::UnixStream::pair().expect("pair")) } else { None };
+        let (io_a, io_rd) = match io_pair {
+            Some((a, b)) => (Some(a), Some(b)),
+            None => (None, None),
+        };
         let (b2, sem2, ready2, lock2) = (b_slot.clone(), sem.clone(), ready.clone(), lock.clone());
         let sh = unsafe {
             coroutine::spawn(move || {
@@ -334,6 +403,19 @@ pub fn run(seed: u64, mut ov: impl FnMut(&mut engine::Cfg)) -> ! {
                         rt::set_flag(&ready2);
                         coroutine::yield_now();
                     }
+                    First::IoRead => {
+                        use std::io::Read;
+                        let mut rd = io_rd.unwrap();
+                        rt::set_flag(&ready2);
+                        let mut buf = [0u8; 8];
+                        match rd.read(&mut buf) {
+                            Ok(3) if buf[..3] == [7, 8, 9] => {}
+                            r => violation(&format!(
+                                "fresh coroutine {}: its first socket read returned {:?} instead of the 3 bytes sent to it (stale result of the stack's previous user, {:?})",
+                                succ_id, r, ending
+                            )),
+                        }
+                    }
                 }
                 // whatever came first, the locals are fresh and stay ours
                 touch(succ_id, 0, &mut first);
@@ -357,6 +439,12 @@ pub fn run(seed: u64, mut ov: impl FnMut(&mut engine::Cfg)) -> ! {
             First::Recv => {
                 let _ = tx.send(42);
             }
+            First::IoRead => {
+                use std::io::Write;
+                let mut a = io_a.unwrap();
+                a.write_all(&[7, 8, 9]).expect("write to the successor");
+                KEEP.lock().unwrap().push(Box::new(a));
+            }
             _ => {}
         }
         let o = OPS.begin(format!("join of successor {} (first action {:?} after {:?})", succ_id, first_action, ending));
@@ -377,6 +465,9 @@ pub fn run(seed: u64, mut ov: impl FnMut(&mut engine::Cfg)) -> ! {
     for a in actors.iter_mut() {
         rt::expect_end(a, false);
     }
+    // whatever stacks are in the pool now (also those of coroutines the runtime spawned itself,
+    // e.g. the arms of a select!): their next users start clean
+    rt::fresh_coroutines_start_clean(3);
     // every value created inside a coroutine is dropped exactly once by now (all coroutines
     // ended and were recycled); thread-local fallbacks live as long as their thread
     // (join returns when the closure has ended; the runtime drops the locals right after, on
